@@ -158,9 +158,18 @@ def s19b_same_name_wiring(ctx):
                 r.sample({'fn': bj['def'], 'field': fname_, 'from_operands': args_used, 'ops': [o.rsplit('::', 1)[-1] for o in ops]})
     r.floor('candle builders', 4, n_build)
     # batch collapse goes through the same Add
-    seq = f.generic_body('core::sequence::Sequence::collapse_timeframe::reduce')
+    # the merge step of the batch collapse: a nested fn (whatever its name), a closure, or the body of collapse_timeframe itself
+    seq = None
+    base = 'core::sequence::Sequence::collapse_timeframe'
+    cands = [bj for bid, bj in sorted(f.bodies.items()) if bj['generic'] and (bj['def'] == base or bj['def'].startswith(base + '::') or bj.get('closure_of') == base)]
+    for bj in cands:
+        if any('std::ops::Add::add' in str(blk) for blk in bj['blocks']):
+            seq = bj
+            break
     if seq is None:
-        raise Broken('Sequence::collapse_timeframe::reduce not found')
+        if not cands:
+            raise Broken('Sequence::collapse_timeframe not found')
+        seq = cands[0]
     sb = Body(seq)
     uses_add = any('Add::add' in str(x) or 'ops::Add' in str(x) for x in (b_['stmts'] for b_ in seq['blocks'])) or any(
         (callee_def(t['callee']) or '').endswith('reduce') for _, t in sb.calls())
@@ -236,11 +245,12 @@ def s19a_collapse_discipline(ctx):
         test = None
         for d, vals in ps.decisions:
             d2 = resolve(d, ps)
-            if d2[0] == 'bin' and d2[1] == 'Eq':
+            if d2[0] == 'bin' and d2[1] in ('Eq', 'Ne'):
                 sides = (d2[2], d2[3])
                 for x, y in (sides, sides[::-1]):
                     if is_advanced(x, pos) and y[0] == 'S0' and len(y[1]) == 1 and y[1][0] in ints and y[1][0] != pos:
-                        test = (y[1][0], not (vals != 'otherwise' and 0 in vals))
+                        holds = not (vals != 'otherwise' and 0 in vals)         # the comparison as written is true on this path
+                        test = (y[1][0], holds if d2[1] == 'Eq' else not holds)    # (period field, position + 1 == period on this path)
                     elif x == ('S0', (pos,)) and y[0] == 'S0' and len(y[1]) == 1 and y[1][0] in ints and y[1][0] != pos:
                         test = ('stale', None)
         if test is None:
@@ -278,6 +288,19 @@ def s19a_collapse_discipline(ctx):
                     r.inst('CollapseTimeframe|next|accumulate')
                     if a0[0] != 'arg':
                         r.violate('CollapseTimeframe|next|accumulate-order', 'the accumulator is not the left operand of + (first open / last close would swap)', cb.file, cb.term_line(bi))
+    if not found_add:
+        # written without a closure: `match self.current.take() { Some(c) => c + candle.clone(), None => candle.clone() }`
+        for bi, t in b.calls():
+            if callee_is(t['callee'], 'Add', 'add'):
+                found_add = True
+                a0 = b.tree_of_operand(t['args'][0])
+                a1 = b.tree_of_operand(t['args'][1]) if len(t['args']) > 1 else ('?',)
+                r.inst('CollapseTimeframe|next|accumulate')
+                from_state = any(isinstance(x, tuple) and x and ((x[0] == 'call' and x[4].endswith('Option::<T>::take')) or
+                                                                 (x[0] == 'field' and x[2] == 'current')) for x in walk_tree(a0))
+                from_input = any(isinstance(x, tuple) and x and x[0] == 'arg' and x[1] >= 2 for x in walk_tree(a1))
+                if not from_state or not from_input:
+                    r.violate('CollapseTimeframe|next|accumulate-order', 'the accumulator is not the left operand of + (first open / last close would swap)', b.file, b.term_line(bi))
     if not found_add:
         # generic closure bodies as fallback
         for bid, bj in f.bodies.items():
